@@ -169,10 +169,10 @@ Definition spec_route (fl : rflags) (gets posts : list (str * hval)) (m : meth) 
 
 (* ---- JSON trees, the websocket listen loop, the encoder ------------------------------------------ *)
 Inductive jv :=
-| JNull | JBool (b : bool) | JNum (quarters : Z) | JStr (s : str)
+| JNull | JBool (b : bool) | JNum (quarters : Z) | JInt (z : Z) | JStr (s : str)      (* JInt: a JSON number WITHOUT fraction/exponent *)
 | JArr (l : list jv) | JObj (kvs : list (str * jv)).
 
-Definition is_numlike (v : jv) : bool := match v with JNum _ => true | _ => false end.
+Definition is_numlike (v : jv) : bool := match v with JNum _ | JInt _ => true | _ => false end.
 Definition is_scalar (v : jv) : bool := match v with JArr _ => false | _ => true end.
 Definition is_strj (v : jv) : bool := match v with JStr _ => true | _ => false end.
 Definition is_boolj (v : jv) : bool := match v with JBool _ => true | _ => false end.
@@ -223,13 +223,18 @@ Fixpoint ws_run (wf : wflags) (ok : jv -> bool) (msgs : list jv) : list jv * boo
 
 (* values a Klong program can hand to the connection, and NumpyEncoder + json.dumps as a tree *)
 Inductive kv :=
-| KNum (quarters : Z) | KStr (s : str)        (* strings, characters and symbols are all JSON strings *)
+| KNum (quarters : Z)                          (* a real (Python float, numpy floating scalar, element of a float array) *)
+| KInt (z : Z)                                 (* an integer of any size (Python int, numpy integer scalar, element of an int array): stays an integer *)
+| KBool (b : bool)                             (* numpy bool_ *)
+| KStr (s : str)                               (* strings, characters and symbols are all JSON strings *)
 | KList (l : list kv)                          (* numpy array / list -> tolist() *)
 | KDict (kvs : list (str * kv)).               (* string-keyed dictionary *)
 
 Fixpoint to_json (v : kv) : jv :=
   match v with
   | KNum q => JNum q
+  | KInt z => JInt z
+  | KBool b => JBool b
   | KStr s => JStr s
   | KList l => JArr (map to_json l)
   | KDict kvs => JObj (map (fun p => (fst p, to_json (snd p))) kvs)
@@ -238,6 +243,8 @@ Fixpoint to_json (v : kv) : jv :=
 Fixpoint of_json (j : jv) : option kv :=
   match j with
   | JNum q => Some (KNum q)
+  | JInt z => Some (KInt z)
+  | JBool b => Some (KBool b)
   | JStr s => Some (KStr s)
   | JArr l => option_map KList
                 ((fix go (l : list jv) : option (list kv) :=
